@@ -44,6 +44,10 @@ P == CASE Profile = "c04q" ->
             [slots |-> <<<<"inc", "h.h">>, <<"inc", "g.h">>>>,
              bodies |-> {"once", "guard", "testX", "defX", "undefX"}, stmts |-> {"qh", "qg", "testX", "defX"},
              maxmain |-> 2, nmains |-> 2, idirs |-> {<<Iu("inc")>>}, forced |-> {<<>>}, nents |-> 2, plats |-> <<"p1", "p2">>]
+      [] Profile = "c08m" ->
+            [slots |-> <<<<"inc", "h.h">>, <<"inc", "g.h">>>>,
+             bodies |-> {"once", "guard", "testX", "defX", "undefX"}, stmts |-> {"qh", "qg", "testX", "defX"},
+             maxmain |-> 1, nmains |-> 2, idirs |-> {<<Iu("inc")>>}, forced |-> {<<>>}, nents |-> 2, plats |-> <<"p1", "p2">>]
       [] Profile = "c18" ->
             [slots |-> <<<<"src", "h.h">>, <<"inc", "h.h">>, <<"inc", "g.h">>, <<"ext", "g.h">>>>,
              bodies |-> {"def", "guard", "once", "miss", "unk", "incq", "testX"},
